@@ -328,12 +328,38 @@ def gen_recipe(rng, kind=None, pool=None):
         R["ret"] = _gen_expr(rng, R, 1) if rng.random() < 0.7 else None
     # values overridden at execute() for some explicitly named binds
     for b in R["binds"]:
-        if b["n"] is not None and rng.random() < 0.3:
+        if b["n"] is not None and not b["u"] and rng.random() < 0.3:
             R["ov"][b["n"]] = (
                 [rng.randint(0, 9) for _ in range(rng.choice([0, 1, 2, 3]))] if b["ex"] else rng.randint(0, 12)
             )
     R.pop("_pool", None)
     return R
+
+
+_LIT = None
+
+
+def _lit_class():
+    """a column element that renders as the decimal text of its value (used for the ground-truth statement)"""
+    global _LIT
+    if _LIT is None:
+        import sqlalchemy as sa
+        from sqlalchemy.ext.compiler import compiles
+        from sqlalchemy.sql.expression import ColumnElement
+
+        class Lit(ColumnElement):
+            inherit_cache = False
+
+            def __init__(self, v):
+                self.v = v
+                self.type = sa.Integer()
+
+        @compiles(Lit)
+        def _render(el, compiler, **kw):
+            return str(el.v)
+
+        _LIT = Lit
+    return _LIT
 
 
 def build(R, final=False):
@@ -345,16 +371,30 @@ def build(R, final=False):
     u = sa.Table("u", md, sa.Column("id", sa.Integer, primary_key=True), sa.Column("tid", sa.Integer), sa.Column("w", sa.Integer))
     objs = {}
 
+    def val(i):
+        b = R["binds"][i]
+        return R["ov"][b["n"]] if b["n"] in R["ov"] else b["v"]
+
+    def lc(v):
+        # ground truth: the value written into the statement text, independent of any bind machinery
+        return _lit_class()(int(v))
+
     def bp(i):
+        if final:
+            return lc(val(i))
         if i not in objs:
             b = R["binds"][i]
-            v = b["v"]
-            if final and b["n"] in R["ov"]:
-                v = R["ov"][b["n"]]
             objs[i] = sa.bindparam(
-                b["n"], v, type_=sa.Integer, unique=bool(b["u"]), literal_execute=bool(b["le"]), expanding=bool(b["ex"])
+                b["n"], b["v"], type_=sa.Integer, unique=bool(b["u"]), literal_execute=bool(b["le"]), expanding=bool(b["ex"])
             )
         return objs[i]
+
+    def num(v):
+        return lc(v) if final else v
+
+    def in_list(col, vals, neg=False):
+        vals = [lc(v) for v in vals] if final else list(vals)
+        return col.not_in(vals) if neg else col.in_(vals)
 
     ops = {
         "add": lambda a, b: a + b, "mod": lambda a, b: a % b, "mul": lambda a, b: a * b,
@@ -368,18 +408,18 @@ def build(R, final=False):
         if e[0] == "b":
             return bp(e[1])
         if e[0] == "cv":
-            return ops[e[2]](tb.c[e[1]], e[3])
+            return ops[e[2]](tb.c[e[1]], num(e[3]))
         return ops[e[0]](ex(e[1], tb), ex(e[2], tb))
 
     def cr(c, tb=t):
         if c[0] == "cv":
-            return ops[c[2]](tb.c[c[1]], c[3])
+            return ops[c[2]](tb.c[c[1]], num(c[3]))
         if c[0] == "cmp":
             return ops[c[1]](ex(c[2], tb), ex(c[3], tb))
         if c[0] == "in":
-            return tb.c[c[1]].in_(bp(c[2]))
+            return in_list(tb.c[c[1]], val(c[2])) if final else tb.c[c[1]].in_(bp(c[2]))
         if c[0] == "inl":
-            return tb.c[c[1]].not_in(c[2]) if c[3] else tb.c[c[1]].in_(c[2])
+            return in_list(tb.c[c[1]], c[2], bool(c[3]))
         if c[0] == "not":
             return sa.not_(cr(c[1], tb))
         return (sa.and_ if c[0] == "and" else sa.or_)(cr(c[1], tb), cr(c[2], tb))
@@ -392,24 +432,24 @@ def build(R, final=False):
         s = sa.select(t.c.id, *lab(R["cols"])).where(cr(R["where"]))
         s = s.order_by(t.c.z + ex(R["order"]), t.c.id) if R["order"] is not None else s.order_by(t.c.id)
         if R["limit"] is not None:
-            s = s.limit(R["limit"])
+            s = s.limit(num(R["limit"]))
             if R["offset"] is not None:
-                s = s.offset(R["offset"])
+                s = s.offset(num(R["offset"]))
     elif k == "cte":
         c = sa.select(t.c.id, t.c.x, t.c.y).where(cr(R["inner"])).cte("c")
         s = sa.select(c.c.id, *lab(R["cols"], c)).where(cr(R["where"], c)).order_by(c.c.id)
         if R["limit"] is not None:
-            s = s.limit(R["limit"])
+            s = s.limit(num(R["limit"]))
     elif k == "subq":
         sq = sa.select(sa.func.max(u.c.w)).where(u.c.tid == t.c.id).where(cr(R["scalar"])).scalar_subquery()
         ins = sa.select(u.c.tid).where(cr(R["insub"]))
-        s = sa.select(t.c.id, *lab(R["cols"])).where(t.c.id.in_(ins)).where(cr(R["where"])).where(sa.func.coalesce(sq, 0) >= 0).order_by(t.c.id)
+        s = sa.select(t.c.id, *lab(R["cols"])).where(t.c.id.in_(ins)).where(cr(R["where"])).where(sa.func.coalesce(sq, num(0)) >= num(0)).order_by(t.c.id)
     elif k == "union":
         a = sa.select(t.c.id, ex(R["lcol"]).label("v")).where(cr(R["left"]))
         b = sa.select(t.c.id, ex(R["rcol"]).label("v")).where(cr(R["right"]))
         s = sa.union_all(a, b).order_by("id", "v")
         if R["limit"] is not None:
-            s = s.limit(R["limit"])
+            s = s.limit(num(R["limit"]))
     elif k == "having":
         s = sa.select(t.c.x, sa.func.count().label("n"), *lab(R["cols"])).where(cr(R["where"])).group_by(t.c.x)
         s = s.having(sa.func.count() > ex(R["having"]))
@@ -417,7 +457,7 @@ def build(R, final=False):
     elif k == "insert":
         vals = {"x": ex(R["vx"])}
         if R["vy"] is not None:
-            vals["y"] = sa.select(sa.func.coalesce(sa.func.max(t.c.y), 0) + ex(R["vyadd"])).where(cr(R["vy"])).scalar_subquery()
+            vals["y"] = sa.select(sa.func.coalesce(sa.func.max(t.c.y), num(0)) + ex(R["vyadd"])).where(cr(R["vy"])).scalar_subquery()
         else:
             vals["y"] = ex(R["vyadd"])
         s = t.insert().values(**vals)
@@ -729,14 +769,14 @@ def _inline(ps, text, params):
         def f(m):
             if m.group(0) == "%%":
                 return "%"
+            if m.group(0) == "%":
+                raise ValueError("stray % in format statement")
             try:
                 return str(next(it))
             except StopIteration:
                 raise ValueError("more %s than parameters")
 
-        if re.search(r"%(?![s%])", text):
-            raise ValueError("stray % in format statement")
-        out = re.sub(r"%%|%s", f, text)
+        out = re.sub(r"%%|%s|%", f, text)
         if list(it):
             raise ValueError("more parameters than %s")
         return out
@@ -762,13 +802,13 @@ def _inline(ps, text, params):
     def f(m):
         if m.group(0) == "%%":
             return "%"
+        if m.group(0) == "%":
+            raise ValueError("stray % in pyformat statement")
         if m.group(1) not in d:
             raise ValueError("no parameter %r" % m.group(1))
         return str(_val(d[m.group(1)]))
 
-    if re.search(r"%(?![(%])", text):
-        raise ValueError("stray % in pyformat statement")
-    return re.sub(r"%%|%\((\w+)\)s", f, text)
+    return re.sub(r"%%|%\((\w+)\)s|%", f, text)
 
 
 def _rows(sql, params=()):
